@@ -91,6 +91,11 @@ class HarnessRun:
                 if rc == 3 or cur < 0:
                     machinery_error = "worker %d exit %d before/without a case: %s" % (i, rc, err[-2000:])
                     continue
+                if rc == 98:   # the harness recorded a non-termination violation for an armed case itself: judged, carry on after it
+                    self.armed_timeouts = getattr(self, "armed_timeouts", 0) + 1
+                    errf[i] = open(os.path.join(self.dir, "e%d" % i), "wb")
+                    procs[i] = subprocess.Popen(self.cmd(i, resume=cur), env=env, stdout=subprocess.DEVNULL, stderr=errf[i])
+                    continue
                 why = "timeout" if rc == 97 else ("signal %d" % -rc if rc < 0 else "exit %d" % rc)
                 self.aborts.append({"case": cur, "phase": phase, "why": why, "sig": signature(err), "stderr": err[-3000:]})
                 restarts[i] += 1
